@@ -2,6 +2,7 @@
 from lib import machine as mc
 from lib.mir import AnchorMissing
 from . import tokrules as tr
+from . import nf_common
 from . import tok_common
 
 MANIFEST = {
@@ -67,7 +68,38 @@ def r03_5(ctx):
     ctx.floor("R03.5", "run-pause-returns", k, 2)
 
 
+def r03_7(ctx):
+    """tree builder: the decision taken on buffered table text does not depend on how the text was cut into character tokens:
+    it is foster-parented iff SOME pending token has a non-whitespace character"""
+    from . import nfq
+    key, step = nfq.cells(ctx, "html_tree_builder", "rules::TreeBuilder<Handle,Sink>::step")
+    n = 0
+    for pc in nfq.feasible(step):
+        if pc["guards"].get("p1 matches InTableText") is not True:
+            continue
+        gl = [(k, v) for k, v in pc["guards"].items() if k.startswith("self.pending_table_text.take()")]
+        if not gl:
+            continue
+        k, v = gl[0]
+        n += 1
+        kk = k.replace(" ", "")
+        exists = ".iter().any(" in kk and "Whitespace=>False" in kk and "NotWhitespace=>True" in kk and "NotSplit=>any_not_whitespace(" in kk
+        forall = ".iter().all(" in kk and "Whitespace=>True" in kk and "NotWhitespace=>False" in kk and "NotSplit=>!any_not_whitespace(" in kk
+        names = nfq.names(pc)
+        fostered = "self.foster_parent_in_body" in names
+        appended = "self.append_text" in names
+        nonspace = v if exists else (not v) if forall else None   # "some pending token has a non-whitespace character"
+        ok = nonspace is not None and ((nonspace and fostered and not appended) or ((not nonspace) and appended and not fostered))
+        ctx.ob("R03.7", "table-text-decision-is-existential/%s" % ("foster" if fostered else "insert"), ok,
+               "some pending token has a non-whitespace character -> foster-parent all of them; none -> insert them" if ok else
+               "pending table text: under '%s' = %s the tokens are %s; the outcome then depends on where the text was split" % (k[:120], v, "foster-parented" if fostered else "inserted" if appended else "dropped"),
+               "html5ever tree_builder rules.rs InTableText")
+    ctx.floor("R03.7", "table-text-paths", n, 2)
+
+
 def run(ctx):
+    ctx.rule("R03.7", "buffered table text is foster-parented iff some pending character token contains a non-whitespace character (independent of the split)")
+    ctx.guard("R03.7", "table-text", lambda: r03_7(ctx))
     ctx.rule("R03.1", "on every path to 'need more input' nothing but input acquisition and pure queries has happened in this iteration")
     ctx.rule("R03.2", "temp_buf is empty at the entry of every state whose arm starts with eat() (forward dataflow over the transition table)")
     ctx.rule("R03.3", "ignore_lf is cleared only by get_preprocessed_char, after raw text was pushed back, or after peek() returned Some")
@@ -89,5 +121,6 @@ def run(ctx):
         tok_common.compare_section(ctx, "R03.6", "html", "charref", T, R, "fn")
 
     ctx.guard("R03.6", "normal-forms", nf)
+    ctx.guard("R03.6", "nf-simd", lambda: nf_common.nf_rule(ctx, "R03.6", "html_tokenizer_simd", floor=3))
     ctx.guard("R03.6", "raw-path-gate", lambda: ctx.floor("R03.6", "raw-path-sites", tr.raw_path_gate(ctx, "R03.6", "html"), 1))
     ctx.analysed.update(states=73)
